@@ -17,6 +17,20 @@ Definition cfg_has_panic (cfg : dcfg) : bool :=
   || negb (match d_condpanic cfg with [] => true | _ => false end)
   || existsb (fun x => existsb action_is_panic (snd (snd x))) (d_plain cfg).
 
+(* user code that drops the Content-Encoding header from under the framework (scripts may): what the response is
+   labelled with is then the script's doing, and C07's label clauses do not speak about it *)
+Definition action_drops_ce (a : action) : bool :=
+  match a with ADelHeader k => str_eqb k H_ContentEncoding | _ => false end.
+Definition fscript_drops_ce (f : fscript) : bool :=
+  existsb action_drops_ce (f_pre f) || existsb action_drops_ce (f_post f).
+Definition cfg_drops_ce (cfg : dcfg) : bool :=
+  existsb fscript_drops_ce (d_cfilters cfg)
+  || existsb (fun x => existsb fscript_drops_ce (snd x)) (d_sfilters cfg)
+  || existsb (fun x => existsb fscript_drops_ce (snd x)) (d_rfilters cfg)
+  || existsb (fun x => existsb action_drops_ce (snd x)) (d_handlers cfg)
+  || existsb action_drops_ce (d_recover_script cfg)
+  || existsb (fun x => existsb action_drops_ce (snd (snd x))) (d_plain cfg).
+
 (* C06: the order of events.  Filters run container, service, route, each in
    registration order; one that does not pass on stops everything after it;
    the target runs iff all passed; then the filters that were entered finish in
